@@ -30,6 +30,15 @@ def cases(seed, tier):
         d = rng.choice([1, 2, 3, 6])
         out.append({'v': M.nest(v, d, rng), 'where': rng.choice(['root', 'node', 'leaf'])})
     out.append({'v': ['tuple', [['int', 2 ** 53 + 1], ['float', (0.5).hex()]]], 'where': 'root'})
+    # one dict / list object referenced several times below a key (a DAG, not a cycle): stored and read back like separate equal values
+    inner = ['dict', [['px', ['float', (0.5).hex()]], ['unit', ['str', 'nm']]]]
+    lst = ['list', [['str', 'a'], ['str', 'b']]]
+    for v in (['dict', [['x', inner], ['y', inner]]],
+              ['dict', [['q', inner], ['more', ['dict', [['r', ['dict', [['again', inner]]]]]]]]],
+              ['dict', [['l1', lst], ['l2', lst], ['d', ['dict', [['l3', lst]]]]]],
+              ['dict', [['a', ['dict', [['in', inner]]]], ['b', ['dict', [['in', inner]]]]]]):
+        for where in ('root', 'node', 'leaf'):
+            out.append({'v': v, 'where': where, 'alias': True})
     # long sequences stored one dataset per member (member names '0'..'9','10',...): order, kind and length survive
     for L in (10, 11, 12, 21):
         for kind in ('list', 'tuple'):
